@@ -85,11 +85,6 @@ theorem NoWrite.freadExact (n : Nat) (err : PyErr) : NoWrite (freadExact n err) 
   apply NoWrite.bind (NoWrite.fread n); intro d
   exact NoWrite.ite (NoWrite.raise _) (NoWrite.pure _)
 
-theorem NoWrite.freadNegative : NoWrite freadNegative := by
-  unfold Asf.freadNegative
-  apply NoWrite.bind (NoWrite.tick _); intro _
-  intro e s r s' h; simp only [Prod.mk.injEq] at h; rw [← h.2]
-
 theorem NoWrite.loadObjectsM (n rem : Nat) : NoWrite (loadObjectsM n rem) := by
   induction n generalizing rem with
   | zero => exact NoWrite.pure _
@@ -99,7 +94,7 @@ theorem NoWrite.loadObjectsM (n rem : Nat) : NoWrite (loadObjectsM n rem) := by
     apply NoWrite.bind (NoWrite.freadExact _ _); intro h
     simp only []
     apply NoWrite.ite
-    · exact NoWrite.bind NoWrite.freadNegative fun _ => NoWrite.raise _
+    · exact NoWrite.raise _
     · apply NoWrite.ite (NoWrite.raise _)
       apply NoWrite.bind (NoWrite.freadExact _ _); intro data
       cases objOf (h.take 16) data with
@@ -130,11 +125,6 @@ theorem freadExact_q {e : Env} (hq : Quiet e) (n : Nat) (err : PyErr) (s : FS) :
   · exact ⟨_, rfl, rfl, rfl⟩
   · exact ⟨_, rfl, rfl, rfl⟩
 
-theorem freadNegative_q {e : Env} (hq : Quiet e) (s : FS) : ∃ s', freadNegative e s = (.ok (), s') ∧ s'.data = s.data := by
-  unfold freadNegative
-  simp only [bind_run, tick_q hq]
-  exact ⟨_, rfl, rfl⟩
-
 /-- the loop of parse_full on the file object is the pure loop at the file position -/
 theorem loadObjectsM_q {e : Env} (hq : Quiet e) (n rem : Nat) (s : FS) :
     ∃ s', loadObjectsM n rem e s = (parseObjects s.data n s.pos rem, s') ∧ s'.data = s.data := by
@@ -152,10 +142,8 @@ theorem loadObjectsM_q {e : Env} (hq : Quiet e) (n rem : Nat) (s : FS) :
       · have hl' : (readAt s.data s.pos 24).length = 24 := by simpa using hl
         simp only [if_neg hl]
         by_cases hs : ofLE ((readAt s.data s.pos 24).drop 16) < 24
-        · simp only [hs, ↓reduceIte, bind_run]
-          obtain ⟨s2, h2, hd2⟩ := freadNegative_q hq s1
-          simp only [h2, raise_run]
-          exact ⟨s2, rfl, by rw [hd2, hd1]⟩
+        · simp only [hs, ↓reduceIte, raise_run]
+          exact ⟨s1, rfl, hd1⟩
         · simp only [hs, ↓reduceIte]
           by_cases hrem : rem - 24 < ofLE ((readAt s.data s.pos 24).drop 16) - 24
           · simp only [hrem, ↓reduceIte, raise_run]; exact ⟨s1, rfl, hd1⟩
@@ -252,11 +240,7 @@ theorem raises_loadObjectsM (n rem : Nat) : Raises LoadErr (loadObjectsM n rem) 
     · apply Raises.bind (raises_freadExact _); intro h
       simp only []
       apply Raises.ite
-      · apply Raises.bind
-        · unfold freadNegative
-          apply Raises.bind ((Raises.tick _).weaken fun _ _ h => Or.inr h); intro _
-          intro e s err s' h; simp at h
-        · intro _; exact Raises.raise _ fun _ => Or.inl rfl
+      · exact Raises.raise _ fun _ => Or.inl rfl
       · apply Raises.ite
         · exact Raises.raise _ fun _ => Or.inl rfl
         · apply Raises.bind (raises_freadExact _); intro data
@@ -310,11 +294,7 @@ theorem okAgree_loadObjectsM (n rem : Nat) : OkAgree (loadObjectsM n rem) := by
     · apply OkAgree.bind (okAgree_freadExact _ _); intro h
       simp only []
       split
-      · apply OkAgree.bind
-        · unfold freadNegative
-          apply OkAgree.bind (OkAgree.tick _); intro _
-          intro e s a s' h; exact h
-        · intro _; exact OkAgree.raise _
+      · exact OkAgree.raise _
       · split
         · exact OkAgree.raise _
         · apply OkAgree.bind (okAgree_freadExact _ _); intro data
@@ -470,11 +450,7 @@ theorem shortAgree_loadObjectsM (n rem : Nat) : ShortAgree (loadObjectsM n rem) 
     · apply ShortAgree.bind (ShortAgree.freadExact _ _); intro h
       simp only []
       split
-      · apply ShortAgree.bind
-        · unfold freadNegative
-          apply ShortAgree.bind (ShortAgree.tick _); intro _
-          intro e s a s' h; exact h
-        · intro _; exact ShortAgree.raise _
+      · exact ShortAgree.raise _
       · split
         · exact ShortAgree.raise _
         · apply ShortAgree.bind (ShortAgree.freadExact _ _); intro data
